@@ -824,6 +824,20 @@ func (fsys *BackupFS) tryRestoreDirPaths(restoreDirPaths []string) (multiErr err
 	sort.Sort(ByLeastFilePathSeparators(restoreDirPaths))
 	var err error
 	for _, dirPath := range restoreDirPaths {
+		// a file or symlink that took the place of the directory has to make room
+		var (
+			fi     fs.FileInfo
+			exists bool
+		)
+		fi, exists, err = lexists(fsys.base, dirPath)
+		if err == nil && exists && !fi.IsDir() {
+			err = fsys.base.Remove(dirPath)
+		}
+		if err != nil {
+			multiErr = errors.Join(multiErr, err)
+			continue
+		}
+
 		// backup -> base filesystem
 		err = copyDir(fsys.base, dirPath, fsys.baseInfos[dirPath])
 		if err != nil {
